@@ -250,15 +250,15 @@ Definition i_tt grad : arr T := fst (fst (p2 grad)).
 Definition i_ttgrad grad : arr T := snd (fst (p2 grad)).
 Definition i_ttsgn grad : arr Z := snd (p2 grad).
 
-(* the state before the first sweep: (tt, ttsgn, zsi, xsi, zsa, xsa, vzero, nz, nx, ttgrad); no dependence on nsweep *)
-Definition init2d (grad : bool) : init_state :=
-  (i_tt grad, i_ttsgn grad, i_zsi grad, i_xsi grad, i_zsa grad, i_xsa grad, i_vzero grad, i_nz grad, i_nx grad,
-   i_ttgrad grad).
-
 Definition init_state : Type := (arr T * arr Z * Z * Z * T * T * T * Z * Z * arr T)%type.
 Definition st_tt (st : init_state) : arr T := fst (fst (fst (fst (fst (fst (fst (fst (fst st)))))))).
 Definition st_ttsgn (st : init_state) : arr Z := snd (fst (fst (fst (fst (fst (fst (fst (fst st)))))))).
 Definition st_vzero (st : init_state) : T := snd (fst (fst (fst st))).
+
+(* the state before the first sweep: (tt, ttsgn, zsi, xsi, zsa, xsa, vzero, nz, nx, ttgrad); no dependence on nsweep *)
+Definition init2d (grad : bool) : init_state :=
+  (i_tt grad, i_ttsgn grad, i_zsi grad, i_xsi grad, i_zsa grad, i_xsa grad, i_vzero grad, i_nz grad, i_nx grad,
+   i_ttgrad grad).
 
 (* one pass of the sweeping loop, on the state (tt, ttsgn) *)
 Definition pass2d (grad : bool) (st : arr T * arr Z) : arr T * arr Z :=
